@@ -115,10 +115,15 @@ def cut_case(ctx, msgs, cut, seg, seed):
     the peer disconnects; then iterate to the end."""
     stream, ends = stream_of(msgs)
     want = [m for m, e in zip(msgs, ends) if e <= cut]
-    case = lambda: {'kind': 'cut', 'msgs': [m.hex() for m in msgs], 'cut': cut, 'seg': seg, 'seed': seed}  # noqa: E731
+    case = lambda: {'kind': 'cut', 'msgs': [m.hex() for m in msgs], 'cut': cut, 'seg': seg, 'seed': seed,  # noqa: E731
+                    'autoreset': (cut + len(msgs)) % 4 == 3}
     rng = random.Random(seed)
     a, b = socket.socketpair()
     port = SocketPort('peer', 1, conn=a)
+    if (cut + len(msgs)) % 4 == 3:
+        # autoreset is an attribute of every output port: the port then answers the disconnect with its reset burst,
+        # learns from the failing writes that the peer is gone, and has to end up closed all the same
+        port.autoreset = True
     got = []
     sleeps = Sleeps(limit=50)
     orig = mido.ports.sleep
